@@ -1509,6 +1509,38 @@ impl Gen<'_> {
         }
     }
 
+    /// A process command configured from frames that end before it is looked at: arguments added in
+    /// loop bodies and function bodies, computed at run time, followed by unrelated string work.
+    fn cmd_idiom(&mut self, out: &mut Vec<Stmt>) {
+        self.budget -= 6;
+        let c = self.fresh_name("cm");
+        let len = *self.rng.pick(&[6usize, 8, 16, 17, 32, 64, 128, 129, 256, 300]);
+        out.push(Stmt::Make { name: c.clone(), init: Some(call("command", vec![self.computed_str(len)])), decl: u32::MAX });
+        self.declare(VarInfo { name: c.clone(), ty: Ty::Cmd, frozen: false, fixed: false, lens: vec![] });
+        let i = self.fresh_name("i");
+        out.push(Stmt::Make { name: i.clone(), init: Some(num(0)), decl: u32::MAX });
+        self.declare(VarInfo { name: i.clone(), ty: Ty::Num, frozen: true, fixed: false, lens: vec![] });
+        let arg = bin(BinOp::Add, self.computed_str(len), var(&i));
+        out.push(Stmt::Loop {
+            cond: bin(BinOp::Lt, var(&i), num(self.rng.range(1, 3))),
+            body: Block { stmts: vec![Stmt::Assign { name: i.clone(), value: bin(BinOp::Add, var(&i), num(1)), decl: u32::MAX }, Stmt::Expr(method(var(&c), "arg", vec![arg]))] },
+        });
+        let f = self.fresh_name("w");
+        let p = self.fresh_name("p");
+        let fb = vec![
+            Stmt::Expr(method(var(&c), "arg", vec![bin(BinOp::Add, var(&p), self.computed_str(len))])),
+            Stmt::Expr(method(var(&c), "arg", vec![var(&p)])),
+        ];
+        out.push(Stmt::FuncDef(Box::new(FuncDef { name: f.clone(), params: vec![p], param_decls: vec![], body: Block { stmts: fb }, id: u32::MAX })));
+        out.push(Stmt::Expr(call(&f, vec![self.computed_str(len)])));
+        for _ in 0..self.rng.range(1, 3) {
+            let t = self.fresh_name("s");
+            out.push(Stmt::Make { name: t.clone(), init: Some(self.computed_str(len)), decl: u32::MAX });
+            self.declare(VarInfo { name: t, ty: Ty::Str, frozen: false, fixed: false, lens: vec![] });
+        }
+        out.push(shout(var(&c)));
+    }
+
     /// An array of arrays built row by row, in place: rows start empty (a literal, or a copy of an
     /// empty variable) or with one element and grow through the nested receiver `m[r].push(e)`
     /// inside a loop body or a function, i.e. in frames that end before the rows are read.
@@ -1608,6 +1640,10 @@ impl Gen<'_> {
         }
         if !deep && self.budget > 10 && self.rng.chance(1, if p == Profile::Scope { 18 } else { 90 }) {
             self.fn_scope_probe_idiom(out);
+            return false;
+        }
+        if !deep && self.budget > 8 && self.rng.chance(1, if p == Profile::Mem { 30 } else { 120 }) {
+            self.cmd_idiom(out);
             return false;
         }
         if p == Profile::Dead && self.rng.chance(1, 14) {
